@@ -975,6 +975,17 @@ def element_case(label, cls, width, defined, fold, v, acc):
                     acc.violation(f"{label}:as_bits_value", {**case, "got": b.to01()})
                 if cls.from_bits(b) is not m:
                     acc.violation(f"{label}:from_bits_as_bits_not_idempotent", case)
+                # the caller owns the bits it was handed (head = X.as_bits(); head += ...): the member serialises the same afterwards
+                orig = b.to01()
+                try:
+                    b.invert()
+                    b.extend(ba("1011"))
+                except TypeError:  # an immutable result is the library's right
+                    pass
+                again = m.as_bits()
+                if again.to01() != orig:
+                    acc.violation(f"{label}:as_bits_changed_after_the_caller_wrote_into_the_returned_bits", {**case, "first": orig, "again": again.to01()},
+                                  "as_bits() hands out a shared object: after the caller extended / inverted what it got, the member serialises differently")
             except Exception as e:
                 acc.violation(f"{label}:exception:" + exc_sig(e), {**case, "path": "as_bits"}, repr(e))
     return outcome
